@@ -1,8 +1,9 @@
 From Coq Require Import Extraction ExtrOcamlBasic.
-From SV Require Import Bytes Lexer Tables ArgCheck Machine Ops Text Build Load GenTables.
+From SV Require Import Bytes Lexer Tables ArgCheck Machine Ops Text Build Load Read GenTables.
 Extraction Language OCaml.
 Extraction "extract/factory_model.ml"
   step spec_step op_get op_is_disabled abs fquote quote_if_necessary quote_list remove_all stored_comment recover to_list
   scan_string
   b_empty b_addfilter b_updatefilter b_step b_render create_filter gen_tables
-  parse from_parser_result reload_text.
+  parse from_parser_result reload_text l_getfilter
+  b_getfilter std_get_conditions std_get_actions get_matchtype.
